@@ -30,7 +30,7 @@ def main():
         plus = next((l[2:].strip() for l in what[1:] if l.startswith("+ ")), "")
         out.append({"id": mid, "where": loc.rstrip(":"), "operator": op, "removed": minus, "added": plus,
                     "verdict": r["verdict"], "caught_by": r.get("caught_by", []), "errors": r.get("errors", []),
-                    "first_violation": r.get("first_violation", "")[:300]})
+                    "first_violation": r.get("first_violation", "")[:300], "rerun": r.get("rerun", "")})
     os.makedirs(os.path.join(HERE, "validation/mech"), exist_ok=True)
     with open(os.path.join(HERE, "validation/mech/results.jsonl"), "w") as f:
         for o in out:
@@ -68,6 +68,17 @@ def main():
              "(accuracy and efficiency of the steppers = C01/C07, option validation, the Python binding, undocumented XOut timing, when ProbablyStiff is raised, "
              "whether a solvable problem is solved at all); *gap_closed* - a genuine gap of the checks, closed by a new oracle or generator family and re-run; "
              "*caught_on_rerun* - the first run ended without verdict (check killed), the re-run with the current machinery reports a VIOLATION.\n")
+    rer = [o for o in out if o["rerun"]]
+    if rer:
+        L.append(f"{len(rer)} of the caught mutants ended their first run without a verdict (a check was OOM-killed, never returned, or was stopped by hand) - "
+                 "each exposed a weakness of the harness on a tree that hangs or spins, which was repaired (DESIGN section 15), and was then re-run with the current machinery:\n")
+        L.append("| mutant | where | change | fires on re-run | first run / repair |")
+        L.append("|---|---|---|---|---|")
+        for o in rer:
+            ch = f"`{o['removed']}` -> `{o['added'] or '(deleted)'}`".replace("|", "\\|")
+            L.append(f"| {o['id']} | {o['where']} | {ch} | {' '.join(o['caught_by'])} | {o['rerun']} |")
+        L.append("")
+        L.append("Survivors:\n")
     L.append("| mutant | where | change | class | reason |")
     L.append("|---|---|---|---|---|")
     for o in surv:
